@@ -375,7 +375,19 @@ Lemma eval_repr_S W f E x xbase id :
 Proof. destruct x; reflexivity. Qed.
 
 (* ---- environments ---- *)
-Definition eff_root (root name : string) : string := if String.eqb root "" then name else root.
+(* environment.go CopyForEnv: the root name is replaced when it is "" or esc.AnonymousEnvironmentName *)
+Definition anon_root (r : string) : bool := String.eqb r "" || String.eqb r "<yaml>".
+Definition eff_root (root name : string) : string := if String.eqb root "" || String.eqb root "<yaml>" then name else root.
+
+Lemma anon_root_false r : anon_root r = false <-> r <> "" /\ r <> "<yaml>".
+Proof.
+  unfold anon_root. rewrite Bool.orb_false_iff. split.
+  - intros [A B]. split; intros ->; [rewrite String.eqb_refl in A|rewrite String.eqb_refl in B]; discriminate.
+  - intros [A B]. split; apply String.eqb_neq; assumption.
+Qed.
+
+Lemma eff_root_anon root name : eff_root root name = if anon_root root then name else root.
+Proof. reflexivity. Qed.
 
 Definition import_loop (W : world) (f : nat) (root' : string) :=
   fix go (is : list (string * bool)) (base : chain) (my : list (string * chain)) : M (chain * list (string * chain)) :=
@@ -388,14 +400,18 @@ Definition import_loop (W : world) (f : nat) (root' : string) :=
         match s with
         | Some i =>
             if is_evaluating i then err ;;; go rest base my
-            else proceed (match is_value i with Some v => v | None => [] end)
+            else match is_value i with
+                 | Some v => proceed v
+                 | None => go rest base my
+                 end
         | None =>
             failed <- call W ;;
             emit (EvLoad n) ;;;
+            let remember_failure := imps_set n {| is_evaluating := false; is_value := None |} in
             match (if failed then LoadFail
                    else match alookup n (w_envs W) with Some l => l | None => LoadFail end) with
-            | LoadFail => err ;;; go rest base my
-            | LoadNoParse => err ;;; go rest base my
+            | LoadFail => err ;;; remember_failure ;;; go rest base my
+            | LoadNoParse => err ;;; remember_failure ;;; go rest base my
             | LoadOk d' =>
                 v <- eval_env W f root' n d' ;;
                 imps_set n {| is_evaluating := false; is_value := Some v |} ;;;
@@ -403,6 +419,34 @@ Definition import_loop (W : world) (f : nat) (root' : string) :=
             end
         end
     end.
+
+Lemma import_loop_nil W f root' base my : import_loop W f root' [] base my = ret (base, my).
+Proof. reflexivity. Qed.
+
+Lemma import_loop_cons W f root' n merge rest base my :
+  import_loop W f root' ((n, merge) :: rest) base my =
+  (s <- imps_get n ;;
+   match s with
+   | Some i =>
+       if is_evaluating i then err ;;; import_loop W f root' rest base my
+       else match is_value i with
+            | Some v => import_loop W f root' rest (if merge then v ++ base else base) (ainsert n v my)
+            | None => import_loop W f root' rest base my      (* a remembered failure *)
+            end
+   | None =>
+       failed <- call W ;;
+       emit (EvLoad n) ;;;
+       match (if failed then LoadFail
+              else match alookup n (w_envs W) with Some l => l | None => LoadFail end) with
+       | LoadFail => err ;;; imps_set n {| is_evaluating := false; is_value := None |} ;;; import_loop W f root' rest base my
+       | LoadNoParse => err ;;; imps_set n {| is_evaluating := false; is_value := None |} ;;; import_loop W f root' rest base my
+       | LoadOk d' =>
+           v <- eval_env W f root' n d' ;;
+           imps_set n {| is_evaluating := false; is_value := Some v |} ;;;
+           import_loop W f root' rest (if merge then v ++ base else base) (ainsert n v my)
+       end
+   end).
+Proof. reflexivity. Qed.
 
 Definition env_ctx (W : world) (root' name : string) (d : envdef) (base : chain) (my : list (string * chain)) : ectx :=
   {| ec_name := name; ec_root := root';
